@@ -11,6 +11,7 @@ import hir as H
 import mir as M
 import canon
 import sym as S
+import sigshape
 from facts import VERIF
 
 EVID = os.path.join(VERIF, 'evidence')
@@ -126,6 +127,7 @@ class Ctx(object):
         apply_variant_shapes(facts)
         apply_aliases(facts)
         apply_param_orders(facts)
+        sigshape.apply_param_objects(facts)
         apply_field_aliases(facts)
         self.fns = {}
         for fn in facts['fns']:
@@ -215,7 +217,7 @@ class Ctx(object):
                 return path
             seen.add(path)
             fn = self.fns.get(path)
-            if fn is None or fn.get('vis') == 'pub' or fn.get('impl_trait'):
+            if fn is None or H.is_public(fn) or fn.get('impl_trait'):
                 return path
             cs = set(re.sub(r'(::\{closure#\d+\})+$', '', c) for c in self.cg.callers(path)) - {path}
             if len(cs) != 1:
@@ -229,7 +231,7 @@ class Ctx(object):
         if not self.new_helper(path):
             return {path}
         fn = self.fns.get(path)
-        if fn is None or fn.get('vis') == 'pub' or fn.get('impl_trait'):
+        if fn is None or H.is_public(fn) or fn.get('impl_trait'):
             return {path}
         out, seen, st = set(), {path}, [path]
         while st:
@@ -239,7 +241,7 @@ class Ctx(object):
                 return {path}
             for c in cs:
                 cf = self.fns.get(c)
-                if self.new_helper(c) and cf is not None and cf.get('vis') != 'pub' and not cf.get('impl_trait'):
+                if self.new_helper(c) and cf is not None and not H.is_public(cf) and not cf.get('impl_trait'):
                     if c not in seen:
                         seen.add(c)
                         st.append(c)
@@ -303,6 +305,14 @@ class Ctx(object):
                         if a_.get('k') == 'AddrOf' and a_.get('mut') and H.peel(a_['e']).get('k') == 'Field' and write_only_param(tgt, i_):
                             visit(a_['e'], fnp, fn, in_log, lhs_keys, 'write', in_fmt)
                             handled.add(i_)
+                if tgt is not None and args and 0 not in handled and is_sink(tgt):
+                    # `self.stats.record(..)` where `record(&mut self, ..)` returns nothing and can reach nothing but `*self`
+                    a0 = args[0]
+                    while a0.get('k') == 'AddrOf' or (a0.get('k') == 'Unary' and a0.get('op') == 'Deref'):
+                        a0 = a0['e']
+                    if a0.get('k') == 'Field':
+                        visit(a0, fnp, fn, in_log, lhs_keys, 'write', in_fmt)
+                        handled.add(0)
                 for i_, a_ in enumerate(args):
                     if i_ not in handled:
                         visit(a_, fnp, fn, in_log, lhs_keys, 'read', in_fmt)
@@ -330,6 +340,46 @@ class Ctx(object):
                 return
             for _, c in H.children(n):
                 visit(c, fnp, fn, in_log, lhs_keys, 'read', in_fmt)
+
+        _sink = {}
+
+        def is_sink(tgt):
+            """`fn(&mut self, by-value / shared arguments..)` without a result whose body calls nothing but arithmetic helpers, logging
+            and other such functions on parts of `self`: whatever it computes can only end up in `*self`."""
+            key = id(tgt)
+            if key in _sink:
+                return _sink[key]
+            _sink[key] = False   # recursion: not a sink
+            prms = tgt.get('params', [])
+            ok = bool(prms) and prms[0].get('k') == 'Bind' and (prms[0].get('ty') or '').startswith('&mut ') and tgt.get('output') == '()' \
+                and 'hir' in tgt and not tgt.get('impl_trait') and not any('&mut' in (q.get('ty') or '') or 'Cell' in (q.get('ty') or '') or 'Mutex' in (q.get('ty') or '')
+                                                                            or 'Sender' in (q.get('ty') or '') for q in prms[1:])
+            if ok:
+                pid = prms[0]['id']
+
+                def rooted(x):
+                    while isinstance(x, dict) and (x.get('k') in ('Field', 'AddrOf', 'Index') or (x.get('k') == 'Unary' and x.get('op') == 'Deref')):
+                        x = x['e']
+                    return isinstance(x, dict) and x.get('k') == 'Local' and x['id'] == pid
+                for n_ in H.walk(tgt['hir']):
+                    k_ = n_.get('k')
+                    if k_ in ('Call', 'MethodCall'):
+                        cp_ = S.norm_path(H.callee_path(n_) or H.callee_decl(n_) or '')
+                        if cp_.split('::')[-1] in S.PURE_NUM and cp_.split('::')[0] in ('std', 'core'):
+                            continue
+                        t2 = self.fns.get(cp_)
+                        if t2 is not None and H.call_args(n_) and rooted(H.call_args(n_)[0]) and is_sink(t2):
+                            continue
+                        ok = False
+                        break
+                    if k_ == 'MacroCall' and n_.get('name') not in H.LOG_MACROS:
+                        ok = False
+                        break
+                    if k_ in ('Closure', 'InlineAsm', 'Yield', 'Await'):
+                        ok = False
+                        break
+            _sink[key] = ok
+            return ok
 
         _wop = {}
 
@@ -445,7 +495,7 @@ class Ctx(object):
                 self.vocab_fields('')
             out = {}
             for ap, a in self.adts.items():
-                if a.get('is_enum') or ap in self._vocab_fields or a.get('vis') == 'pub' or len(a.get('variants') or []) != 1:
+                if a.get('is_enum') or ap in self._vocab_fields or H.is_public(a) or len(a.get('variants') or []) != 1:
                     continue
                 fl = a['variants'][0]['fields']
                 if fl and not all(f['name'].isdigit() for f in fl) and (ap, fl[0]['name']) not in self.obs_fields():
@@ -603,6 +653,11 @@ def apply_aliases(facts):
             fwd[m] = g
     for m, g in fwd.items():
         facts['fns'] = [f_ for f_ in facts['fns'] if S.norm_path(f_['path']) != m and not S.norm_path(f_['path']).startswith(m + '::{closure')]
+        ren[g] = m
+    # a vocabulary function moved to the type of one of its parameters, losing parameters it did not use
+    moved = sigshape.moved_methods(facts, sigs, by, [m for m in missing if m not in ren.values()], new, set(ren))
+    sigshape.apply_moved_methods(facts, sigs, moved)
+    for g, (m, _) in moved.items():
         ren[g] = m
     if not ren:
         return {}
@@ -804,7 +859,7 @@ def apply_param_orders(facts):
     for fn in facts['fns']:
         k = S.norm_path(fn['path'])
         want = (sigs.get(k) or {}).get('params')
-        if not want or None in want or fn.get('vis') == 'pub' or fn.get('impl_trait') or 'hir' not in fn:
+        if not want or None in want or H.is_public(fn) or fn.get('impl_trait') or 'hir' not in fn:
             continue
         have = [(q.get('name') if q.get('k') == 'Bind' else None) for q in fn.get('params', [])]
         if None in have or have == want or sorted(have) != sorted(want) or len(set(have)) != len(have):
@@ -949,7 +1004,7 @@ def apply_field_aliases(facts):
         missing = [n for n in known if n not in have]
         new = [n for n in have if n not in known]
         for m in missing:
-            cs = [n for n in new if have[n]['ty'] == known[m][0] and have[n].get('vis') != 'pub' and known[m][1] != 'pub']
+            cs = [n for n in new if have[n]['ty'] == known[m][0] and not H.is_public(have[n]) and known[m][1] != 'pub']
             if len(cs) == 1 and len([m2 for m2 in missing if known[m2][0] == known[m][0]]) == 1:
                 ren[(ap, cs[0])] = m
     if not ren:
